@@ -11,7 +11,9 @@ import ZygoVerif.Model.LegacyLexer
 import ZygoVerif.Model.LegacyParser
 import ZygoVerif.Spec.Unfinished
 import ZygoVerif.Proofs.ParseChunks
+import ZygoVerif.Proofs.Abandon
 import ZygoVerif.Generated.LexTables
+import ZygoVerif.Generated.ResetOrder
 namespace ZygoVerif.Props.C13
 open ZygoVerif ZygoVerif.Lexer ZygoVerif.Parser
 
@@ -114,6 +116,169 @@ theorem parser_resets_complete :
     (∀ f ∈ ["next", "stop", "yield", "sendMe", "call:lexer.Reset", "call:lexer.AddNextStream"],
         f ∈ Generated.LexTables.parserResetAddNewInputAssigns) := by
   decide
+
+/-! ## 3b. History on the REAL protocol: the suspended coroutine of a failed parse
+
+`reset_forgets` above is about the delivery model in which an unfinished parse simply ends. The Go
+parser keeps it as a suspended coroutine, and `Reset`/`ResetAddNewInput`/`Stop` let it run to its
+end (`Model/Abandon`: `residual`, `stopNow`, `unwind`). The statements below are about the parser
+driven call by call (`PSt`), for EVERY parser state: any lexer state, any reply accumulator and
+ANY suspended program (also programs that are not the parser's). -/
+
+/-- the parser model with the stop-annotations erased is the parser model of `Model/Parser` -/
+theorem annotated_parser_is_the_parser (f : Nat) : (S.topLoop f).erase = topLoop f := erase_topLoop f
+
+/-- a coroutine stays suspended exactly when `ParseTokens` answers "more input needed"; it is
+blocked in a waiting instruction (whose reaction to `stop()` is what `stopNow` executes) -/
+theorem suspended_iff_more {α : Type} (p : SProg α) (s : PState) :
+    (residual p s).isSome = (run p.erase s).1.isMore ∧ (∀ κ, residual p s = some κ → κ.isWait = true) :=
+  residual_iff_more p s
+
+example : (residual (S.topLoop 16) (PSt.fresh.resetAddNewInput "(a (".toList).pstate).isSome = true := by decide +kernel
+
+/-- **The kept coroutine is the rest of the parse.** Whenever a parse rests in a blocked
+"more input needed" yield (`suspendA … = (false, κ, v')` on the view of a state with a current
+stream and the end of the input not signalled), then (1) the program `PSt.parseTokens` keeps as the
+coroutine is `κ`, the answer is `more` and the state it leaves is `v'`; (2) `v'` has no input left;
+(3) resuming `κ` on any further input `more` is running the ORIGINAL program on the input followed
+by `more`, whatever end-of-input mark the continuation carries. For every program. (With
+`annotated_parser_is_the_parser` and `run_view`: an unfinished text continued by `NewInput` parses
+as the concatenation; what `Stop`/`Reset` unwind is that same program.) -/
+theorem suspended_program_is_rest_of_run {α : Type} (p : SProg α) (s : PState) (hi : Parser.Inv s)
+    (hfin : (view s).fin = false) (κ : SProg α) (v' : View) (h : suspendA p (view s) = some (false, κ, v')) :
+    (residual p s = some κ ∧ view (run p.erase s).2 = v' ∧ (run p.erase s).1.isMore = true) ∧
+    v'.runes = [] ∧
+    ∀ more fin', runA p.erase ⟨(view s).core, (view s).runes ++ more, (view s).exprs, fin'⟩ =
+      runA κ.erase ⟨v'.core, more, v'.exprs, fin'⟩ :=
+  ⟨residual_of_suspendA p s hi κ v' h, resume_is_rest_of_run p (view s) hfin false κ v' h⟩
+
+example : ∃ κ v', suspendA (S.topLoop 16) (view (PSt.fresh.resetAddNewInput "(a (".toList).pstate) = some (false, κ, v') := by
+  have h : ((suspendA (S.topLoop 16) (view (PSt.fresh.resetAddNewInput "(a (".toList).pstate)).map (·.1)) = some false := by
+    decide +kernel
+  obtain ⟨⟨e, κ, v'⟩, h1, h2⟩ := Option.map_eq_some_iff.mp h
+  exact ⟨κ, v', by rw [h1]; simp only at h2; rw [h2]⟩
+
+/-- **`abandoned_parse_consumes_nothing`.** After `ResetAddNewInput(piece)` the input of the
+lexer is exactly `piece`, every other lexer field is as in a new lexer, the reply accumulator is
+empty and no coroutine is left — whatever parse was suspended, wherever it was suspended: the
+coroutine unwinds BEFORE the lexer is reset and given the new text, so all it reads and all it
+appends to the reply is discarded. -/
+theorem abandoned_parse_consumes_nothing (p : PSt) (piece : List Char) :
+    (p.resetAddNewInput piece).lex.pending = piece ∧
+    (p.resetAddNewInput piece).lex.toLexCore = LexCore.init ∧
+    (p.resetAddNewInput piece).lex.finished = false ∧
+    (p.resetAddNewInput piece).exprs = [] ∧
+    (p.resetAddNewInput piece).co.isNone = true := by
+  obtain ⟨h1, h2, _, h4⟩ := resetAddNewInput_view (p.stop).lex piece
+  exact ⟨h1, h2, h4, rfl, rfl⟩
+
+/-- a state with a parse suspended right after a nested `(` (the text `(a (`) -/
+def suspendedAfter (t : String) : PSt := ((PSt.fresh.resetAddNewInput t.toList).parseTokens 64).2.2
+
+example : (suspendedAfter "(a (").co.isSome = true := by decide +kernel
+
+/-- every reset route of the API leads to ONE state, that of a new parser given the text -/
+theorem start_forgets (p : PSt) (r : Route) (hr : r.isReset = true) (hr' : r ≠ .resetAddLexerFirst ∧ r ≠ .resetNewLexerFirst)
+    (piece : List Char) : p.start r piece = PSt.fresh.start .resetAdd piece := by
+  cases r <;> simp_all [Route.isReset, PSt.start, PSt.resetAddNewInput, PSt.reset, PSt.newInput, PSt.stop, PSt.fresh,
+    reset_eq_init]
+
+/-- **`protocol_reset_forgets`.** A text brought to a used parser by any reset route (piece 1 by
+the route, the others with `NewInput`, `ParseTokens` after each, `EndInput`, `ParseTokens`) gives
+the statuses and expressions a new parser gives — after any history, with any parse suspended. -/
+theorem protocol_reset_forgets (F : Nat) (p : PSt) (r : Route) (hr : r.isReset = true)
+    (hr' : r ≠ .resetAddLexerFirst ∧ r ≠ .resetNewLexerFirst) (cs : List (List Char)) :
+    (p.parseBy F r cs).1 = (PSt.fresh.parseBy F .resetAdd cs).1 := by
+  unfold PSt.parseBy
+  simp only [start_forgets p r hr hr']
+
+example : Route.resetNew.isReset = true ∧ Route.resetNew ≠ .resetAddLexerFirst ∧ Route.resetNew ≠ .resetNewLexerFirst := by decide
+
+/-- **The other statement order is wrong** (what the model says about a refactoring that resets
+the lexer first and stops the coroutine afterwards): the dying parse of `(a (` reads the whole next
+text `b) c d`; after `(a b` (it waits in `ParserPeekNextToken`) and after a lone `(` nothing is read. -/
+theorem lexer_first_counterexample :
+    ((suspendedAfter "(a (").resetAddNewInputLexerFirst "b) c d".toList).lex.pending = [] ∧
+    ((suspendedAfter "(a b").resetAddNewInputLexerFirst "b) c d".toList).lex.pending = "b) c d".toList ∧
+    ((suspendedAfter "(").resetAddNewInputLexerFirst "b) c d".toList).lex.pending = "b) c d".toList := by
+  decide +kernel
+
+/-- … and so is replacing the reply accumulator before the coroutine is stopped: the dying parse of
+`%(` appends `(quote <end>)` to the NEW reply. -/
+theorem reply_first_counterexample :
+    ((suspendedAfter "%(").exec "1".toList [.clearReply, .stop, .lexReset, .lexAdd]).exprs.length = 1 ∧
+    ((suspendedAfter "%(").resetAddNewInput "1".toList).exprs.length = 0 := by
+  decide +kernel
+
+/-- Every order of the four steps that respects the protocol rule gives the state of
+`PSt.resetAddNewInput` / `PSt.reset`. -/
+theorem good_orders_agree (p : PSt) (piece : List Char) :
+    (∀ l ∈ resetAddOrders, p.exec piece l = p.resetAddNewInput piece) ∧
+    (∀ l ∈ resetOrders, p.exec piece l = p.reset) := by
+  have hco : p.stop.co = none := by unfold PSt.stop; split <;> rfl
+  simp [resetAddOrders, resetOrders, PSt.exec, PSt.step, PSt.resetAddNewInput, PSt.reset, LexState.reset, hco]
+
+/-- all insertions of `x` into a list; all permutations of a list (core has none) -/
+def insertAll {α : Type} (x : α) : List α → List (List α)
+  | [] => [[x]]
+  | y :: ys => (x :: y :: ys) :: (insertAll x ys).map (y :: ·)
+
+def perms {α : Type} : List α → List (List α)
+  | [] => [[]]
+  | x :: xs => (perms xs).flatMap (insertAll x)
+
+example : (perms [1, 2, 3]).length = 6 ∧ (perms [Step.stop, .clearReply, .lexReset, .lexAdd]).length = 24 := by decide
+
+/-- `resetAddOrders`/`resetOrders` are exactly the permutations of the steps that satisfy the rule -/
+theorem good_orders_are_the_rule :
+    ((perms [Step.stop, .clearReply, .lexReset, .lexAdd]).filter Step.okOrder).all (· ∈ resetAddOrders) = true ∧
+    resetAddOrders.all Step.okOrder = true ∧
+    ((perms [Step.stop, .clearReply, .lexReset]).filter Step.okOrder).all (· ∈ resetOrders) = true ∧
+    resetOrders.all Step.okOrder = true := by
+  decide
+
+/-- **Table fact (T1): the protocol rule on the statements of parser.go.** The order of the
+statements of `Parser.Reset` and `Parser.ResetAddNewInput` (helper methods inlined), regenerated
+on every run, reduced to the four steps, is one of the orders for which `good_orders_agree` proves
+the model's result. -/
+theorem reset_stops_coroutine_first :
+    Generated.ResetOrder.parserResetAddNewInput.filterMap stepOf ∈ resetAddOrders ∧
+    Generated.ResetOrder.parserReset.filterMap stepOf ∈ resetOrders := by
+  first
+    | decide
+    | fail "PROTOCOL RULE BROKEN (C13, history independence) in zygo/parser.go Parser.Reset / Parser.ResetAddNewInput: the suspended coroutine of an unfinished parse must be stopped (p.stop()) BEFORE p.lexer.Reset() / p.lexer.AddNextStream(s) and BEFORE p.sendMe is replaced. iter.Pull's stop() lets the coroutine run to its end; the wait loops of ParseList/ParseArray/ParseInfix/ParseBlockComment/ParseBacktickString answer the stopped yield with (SexpEnd, nil) and their callers go on peeking at the lexer, so a lexer that already holds the next text is read by the dying parse (Model/Abandon.unwind; Props/C13.lexer_first_counterexample, reply_first_counterexample). See Generated/ResetOrder.lean for the order found."
+
+/-- nothing in `l` before the first `"call:stop"` is `x` -/
+def notBeforeStop (x : String) (l : List String) : Bool := !((l.takeWhile (· != "call:stop")).contains x)
+
+/-- **Table fact (T1), second rule.** `p.yield` is the function the parser functions call to ask
+for more input; the unwinding coroutine still calls it (`parser.yield(parser.sendMe)` in every
+wait loop it passes). It is not part of the model's state, so the rule is stated on the table:
+it is cleared only after the coroutine has been stopped. -/
+theorem yield_cleared_after_stop :
+    notBeforeStop "assign:yield" Generated.ResetOrder.parserReset = true ∧
+    notBeforeStop "assign:yield" Generated.ResetOrder.parserResetAddNewInput = true ∧
+    notBeforeStop "assign:yield" Generated.ResetOrder.parserStop = true := by
+  first
+    | decide
+    | fail "PROTOCOL RULE BROKEN (C13, history independence) in zygo/parser.go Parser.Reset / ResetAddNewInput / Stop: p.yield must not be cleared before p.stop() has run: the stopped coroutine of an unfinished parse still calls parser.yield(...) in every wait loop it unwinds through (a nil function there is a host panic in the middle of the next load). See Generated/ResetOrder.lean for the order found."
+
+/-- `Stop` stops the coroutine too (used by `Close`) -/
+theorem stop_stops : "call:stop" ∈ Generated.ResetOrder.parserStop := by decide
+
+/-- **Full statement, NOT proved** (compared on every `parse h` op: the driver computes both and
+answers `MODELS-DISAGREE` when they differ): the parser driven call by call gives what the
+delivery model of `Model/Parser` (pieces known in advance) gives, so `parse_chunks_eq_whole`
+transfers to the call-by-call protocol. Proved parts: `annotated_parser_is_the_parser` (both run
+the same program) and `suspended_iff_more` (a coroutine is kept exactly when the answer is `more`).
+and `suspended_program_is_rest_of_run` (resuming the kept program with further input continues the
+run of the whole). Missing: the step over a `done` (the NEW `ParsingIter` of the next call gets
+new fuel in the model: needs "the fuel is enough" over the mutual recursion) and the statuses of
+the intermediate calls (`trace` is not part of the abstract views). -/
+def StepwiseIsRun : Prop :=
+  ∀ (p : PSt) (cs : List (List Char)),
+    let r := (p.parseBy (fuelFor cs) .resetAdd cs).1
+    r.status = (parseChunks cs).status ∧ r.exprs = (parseChunks cs).exprs ∧ r.trace = (parseChunks cs).trace
 
 /-! ## 4. The last token is kept -/
 
